@@ -152,10 +152,13 @@ class Engine:
                 ops.append({"op": "inv_cli", "args": o.choice([[], ["-d", "py"], ["-n", "foo*"], ["-f", "json"],
                                                                 ["-o", "label", "-l", "*.html*"]])})
             elif k < 0.77:
-                ops.append({"op": "html5_demo", "doc": doc})
+                ops.append({"op": "html5_demo", "doc": doc, "opts": o.choice([
+                    {}, {}, {"myst_enable_extensions": ["deflist", "colon_fence", "substitution", "smartquotes"]},
+                    {"myst_heading_anchors": 2}, {"myst_substitutions": {"key1": "demo value"}},
+                    {"myst_footnote_sort": False, "myst_title_to_header": True}])})
             elif k < 0.79:
                 # the myst-docutils-* command-line entry points, called several times in one process
-                ops.append({"op": "cli_doc", "doc": doc, "writer": o.choice(["pseudoxml", "xml", "html5"]),
+                ops.append({"op": "cli_doc", "doc": doc, "writer": o.choice(["pseudoxml", "xml", "html5", "html5_demo"]),
                             "flags": o.choice([[], ["--myst-heading-anchors=2"], ["--myst-enable-extensions=deflist,dollarmath"],
                                                ["--myst-footnote-sort=no", "--myst-heading-anchors=3"],
                                                ["--myst-suppress-warnings=myst.header"]])})
@@ -636,8 +639,8 @@ def _run_op(op, plan, root, i, state: _State, fresh: bool):  # noqa: C901
         out = _read(root, os.path.relpath(dest, root)) if os.path.exists(dest) else None
         wtext = _read(root, os.path.relpath(warn, root)) if os.path.exists(warn) else ""
         shutil.rmtree(outdir, ignore_errors=True)
-        if op["writer"] == "html5":
-            out = out is not None  # docutils' HTML writer has process-global state of its own (see html5_demo)
+        if op["writer"] in ("html5", "html5_demo"):
+            out = _html_obs(out, root, _read(root, op["doc"])) if out is not None else None  # docutils' HTML writer has process-global state of its own (see html5_demo)
         else:
             out = sut.canon_sets(sut.scrub(out, root)) if out is not None else None
         return (status, out, sut.canon_sets(sut.scrub(wtext, root)))
@@ -647,13 +650,14 @@ def _run_op(op, plan, root, i, state: _State, fresh: bool):  # noqa: C901
         ws = io.StringIO()
         try:
             out = to_html5_demo(_read(root, op["doc"]), warning_stream=ws, halt_level=5, report_level=2,
-                                _disable_config=True)
+                                _disable_config=True, **(op.get("opts") or {}))
         except Exception as e:  # noqa: BLE001
             return ("exc", sut.exc_signature(e), sut.scrub(ws.getvalue(), root))
         # the HTML string itself is not compared: the property speaks about doctree and warnings, and
         # docutils' HTML writer has process-global state of its own (HTMLTranslator.math_tags is mutated
         # when a math node carries classes) that would make any parser's output history-dependent
-        return ("ok", len(out) > 0, sut.canon_sets(sut.scrub(ws.getvalue(), root)))
+        # ... so the string is compared only when it has no math in it
+        return ("ok", _html_obs(out, root, _read(root, op["doc"])), sut.canon_sets(sut.scrub(ws.getvalue(), root)))
     if kind == "wildcard":
         from myst_parser.inventory import _create_regex, match_with_wildcard
 
@@ -692,6 +696,15 @@ def _run_op(op, plan, root, i, state: _State, fresh: bool):  # noqa: C901
                         v.append("poison")
         return None
     raise ValueError(kind)
+
+
+def _html_obs(html: str, root: str, src: str | None = None):
+    """The HTML string when it contains no math (docutils' HTML writer keeps process-global math state), else True."""
+    if src is None or any(t in src for t in ("math", "$", "\\begin{", "\\[", "\\(")) or "math" in html.lower() or (
+            "formula" in html):
+        return True
+    body = _html_body(html)
+    return sut.canon_sets(sut.scrub(body, root))
 
 
 _BODY_RE = re.compile(r"<body.*?</body>", re.S)
